@@ -64,6 +64,18 @@ DIRECTED = [
     {"grid": [1, 1, 1], "chunk": 4, "rem": [0, 0, 0], "minishard_bits": 1, "shard_bits": 0,
      "preshift_bits": 0, "minishard_index_encoding": "gzip", "data_encoding": "raw",
      "data_type": "uint8", "num_channels": 1},
+    # more than 64 shards in one scale, two chunks per minishard
+    {"grid": [16, 8, 4], "chunk": 2, "rem": [1, 1, 1], "minishard_bits": 1, "shard_bits": 7,
+     "preshift_bits": 0, "minishard_index_encoding": "raw", "data_encoding": "raw",
+     "data_type": "uint8", "num_channels": 1},
+    # one minishard receiving more than 1 MiB of chunk data (6 x 256 KiB)
+    {"grid": [3, 2, 1], "chunk": 64, "rem": [63, 63, 63], "minishard_bits": 0,
+     "shard_bits": 0, "preshift_bits": 0, "minishard_index_encoding": "raw",
+     "data_encoding": "raw", "data_type": "uint8", "num_channels": 1},
+    # ... and more than 64 KiB
+    {"grid": [3, 3, 2], "chunk": 16, "rem": [15, 15, 15], "minishard_bits": 1,
+     "shard_bits": 0, "preshift_bits": 1, "minishard_index_encoding": "gzip",
+     "data_encoding": "raw", "data_type": "uint16", "num_channels": 1},
     # minishards whose data exceeds the 4096-byte read size of the on-disk byte array
     {"grid": [4, 2, 2], "chunk": 8, "rem": [7, 7, 7], "minishard_bits": 1, "shard_bits": 0,
      "preshift_bits": 0, "minishard_index_encoding": "raw", "data_encoding": "raw",
@@ -132,6 +144,10 @@ def run_case(case):
            "bits_total_over_64": int(cfg["minishard_bits"] + cfg["shard_bits"]
                                      + cfg["preshift_bits"] > 64),
            "strategies": {str(case["strategy"]): 1},
+           "more_than_64_shards": int(len({morton_spec.route(
+               shardlib.cmc_of(cfg, p), cfg["preshift_bits"], cfg["minishard_bits"],
+               cfg["shard_bits"])[0] for p in subset}) > 64),
+           "minishard_data_over_1MiB": int(cfg["chunk"] >= 64 and len(subset) >= 5),
            "identifiers_ge_2_16": int(max(shardlib.cmc_of(cfg, p) for p in subset) >= 2 ** 16),
            "identifiers_ge_2_32": int(max(shardlib.cmc_of(cfg, p) for p in subset) >= 2 ** 32)}
     ctx = (f"grid {cfg['grid']} chunk {cfg['chunk']} bits(m,s,p)=({cfg['minishard_bits']},"
@@ -243,6 +259,8 @@ def gates(obs, tier):
         "long_minishard_index": obs.get("minishard_with_41_or_more_chunks", 0) > 0,
         "bit_totals_beyond_64": obs.get("bits_total_over_64", 0) > 0,
         "both_strategies": len(obs.get("strategies", {})) >= 2,
+        "more_than_64_shards_in_a_scale": obs.get("more_than_64_shards", 0) > 0,
+        "megabyte_minishards": obs.get("minishard_data_over_1MiB", 0) > 0,
         "identifiers_beyond_2_16_and_2_32": obs.get("identifiers_ge_2_16", 0) > 0
         and obs.get("identifiers_ge_2_32", 0) > 0,
         "routing_contracts_evaluated": ce.get("compressed_morton_code", 0) > 0
